@@ -161,7 +161,11 @@ func (ms *Modules) resolveIdentities() []error {
 	// from them, and compile them into a "fully resolved" map that means that
 	// we can look them up based on the 'real' prefix of the module and the
 	// name of the identity.
-	for _, mod := range ms.Modules {
+	// The modules are taken in the order of their names, so that of several
+	// revisions of one module, which all register their identities under
+	// the module's name, it is the same one on every run (the latest) whose
+	// identities the name denotes.
+	for _, mod := range sortedModules(ms.Modules) {
 		for _, i := range mod.Identities() {
 			keyName, r := newResolvedIdentity(mod, i)
 			ms.typeDict.identities.dict[keyName] = *r
